@@ -504,3 +504,11 @@ Theorem C13_feret_independent : forall ijv ijv' idx idx' r r',
   nth r' (MecFeretC13.feret_rows (fst (Hull.convex_hull_ijv ijv' idx'))) (Feret.sweep []).
 Proof. exact HullBoundC13.feret_independent. Qed.
 Print Assumptions C13_feret_independent.
+
+(* the hypothesis "same rows in buffer order" of the three independence theorems follows from "same rows of
+   label l in the call's ijv list": lexsort orders by label first, so filtering one label out of the sorted
+   buffer is sorting that label's rows *)
+Theorem C13_own_rows_of_label : forall ijv ijv' l,
+  HullBatch.sel l ijv = HullBatch.sel l ijv' -> OwnRowsC13.own_rows ijv l = OwnRowsC13.own_rows ijv' l.
+Proof. exact HullBoundC13.own_rows_of_label. Qed.
+Print Assumptions C13_own_rows_of_label.
